@@ -187,7 +187,10 @@ class DriftCorrection(AutoSerialize):
 
     @number_knots.setter
     def number_knots(self, value: float):
-        self._number_knots = int(value)
+        value = int(value)
+        if value < 1:
+            raise ValueError(f"number_knots must be >= 1, got {value}")
+        self._number_knots = value
 
     def preprocess(
         self,
